@@ -14,7 +14,8 @@ package main
 //	     cache interface (or on any interface the cache implementations satisfy), or a static call
 //	     of an implementation's Set — passes a (key, chain) pair that, in the function where the
 //	     pair's values are produced, is
-//	       read:    chain = result of IssuanceChainStorage.FindByKey(key) for that same key, or
+//	       read:    chain = result of IssuanceChainStorage.FindByKey(key) for that same key, and the write
+//	                cannot execute once the comparison SHA-256(chain) == key came out unequal, or
 //	       written: (key, chain) = the arguments of IssuanceChainStorage.Add(key, chain),
 //	     the storage call comes before the write on every path (strict dominance) and the write
 //	     cannot execute once the storage call reported an error.  When key and chain are parameters
@@ -324,10 +325,15 @@ func (w *c14Writers) storageCall(c *ssa.CallCommon) string {
 
 // provAt: at the instruction `at` of fn, (kd, vd) — origin terms in fn's frame — is a row of the
 // storage: read under that key or written as that pair by a storage call that strictly dominates
-// `at` and whose failure makes `at` unreachable.
+// `at` and whose failure makes `at` unreachable.  A row that was READ is a row only in so far as it
+// still is what was written: the storage is content-addressed, and a cache hit is served without a
+// check, so a chain read is handed to the cache only after its hash has been compared with the key
+// it was read under — `at` is unreachable once that comparison came out unequal.  Terms are compared
+// after c14Norm (a single-assignment local captured by a literal reads as the value assigned).
 func (w *c14Writers) provAt(fn *ssa.Function, at ssa.Instruction, kd, vd string) (bool, string) {
 	r := w.r
 	found, why := false, ""
+	kd, vd = c14Norm(r, fn, kd), c14Norm(r, fn, vd)
 	eachInstr(fn, func(in ssa.Instruction) {
 		ci, ok := in.(ssa.CallInstruction)
 		if !ok || found {
@@ -346,12 +352,12 @@ func (w *c14Writers) provAt(fn *ssa.Function, at ssa.Instruction, kd, vd string)
 		case "find":
 			res := CallResult(ci, 0)
 			errv = CallResult(ci, 1)
-			if len(a) != 3 || res == nil || errv == nil || r.D.D(a[2]) != kd || r.D.D(res) != vd {
+			if len(a) != 3 || res == nil || errv == nil || c14D(r, fn, a[2]) != kd || c14D(r, fn, res) != vd {
 				return
 			}
 		case "add":
 			errv = CallResult(ci, 0)
-			if len(a) != 4 || errv == nil || r.D.D(a[2]) != kd || r.D.D(a[3]) != vd {
+			if len(a) != 4 || errv == nil || c14D(r, fn, a[2]) != kd || c14D(r, fn, a[3]) != vd {
 				return
 			}
 		}
@@ -371,14 +377,57 @@ func (w *c14Writers) provAt(fn *ssa.Function, at ssa.Instruction, kd, vd string)
 			why = "the pair is " + what + " at " + r.Where(in) + ", but the cache write is reachable after that call failed"
 			return
 		}
+		if kind == "find" {
+			cmp := c14ContentCheck(r, fn, kd, vd)
+			if cmp == "" {
+				why = "the chain read from storage at " + r.Where(in) + " is handed to the cache without its SHA-256 ever being compared with the key it was read under"
+				return
+			}
+			r.Valuations++
+			if r.D.Walk(fn, Sigma{cmp: "F"}, cb, nil).Has(at) {
+				why = "the chain read from storage at " + r.Where(in) + " is handed to the cache before its SHA-256 has been compared with the key it was read under (the cache write is reachable with the comparison unequal): a damaged row is rejected on this read but served, unchecked, from the cache on the following ones"
+				return
+			}
+		}
 		found, why = true, "("+kd+", "+vd+") "+what+" in "+FuncName(fn)+" ("+r.Where(in)+"), the cache write only follows its success"
 	})
 	return found, why
 }
 
+// c14ContentCheck: the key of the branch condition of fn that compares the content address of the
+// chain vd (SHA-256, directly or through issuanceChainHash, which C14.R5 decides to be SHA-256) with
+// the key kd; "" when fn has none.
+func c14ContentCheck(r *Run, fn *ssa.Function, kd, vd string) string {
+	isHashOf := func(h ssa.Value) bool {
+		if c, ok := h.(*ssa.Call); ok && CalleeOf(c) == "trillian/ctfe.issuanceChainHash" && len(c.Call.Args) == 1 {
+			return c14D(r, fn, c.Call.Args[0]) == vd
+		}
+		return c14D(r, fn, h) == "sha256.Sum256("+vd+")[:]"
+	}
+	atoms := r.D.AtomsOf(fn)
+	out := ""
+	eachInstr(fn, func(in ssa.Instruction) {
+		c, ok := in.(*ssa.Call)
+		if !ok || CalleeOf(c) != "bytes.Equal" || len(c.Call.Args) != 2 {
+			return
+		}
+		x, y := c.Call.Args[0], c.Call.Args[1]
+		if !(isHashOf(x) && c14D(r, fn, y) == kd) && !(isHashOf(y) && c14D(r, fn, x) == kd) {
+			return
+		}
+		if ci := r.D.Classify(c); ci != nil {
+			if _, tested := atoms[ci.Key]; tested {
+				out = ci.Key
+			}
+		}
+	})
+	return out
+}
+
 // decide: the obligation (kd, vd) at instruction `at` of fn.
 func (w *c14Writers) decide(fn *ssa.Function, at ssa.Instruction, kd, vd string, depth int) (bool, string) {
 	r := w.r
+	kd, vd = c14Norm(r, fn, kd), c14Norm(r, fn, vd)
 	if ok, why := w.provAt(fn, at, kd, vd); ok {
 		return true, why
 	} else if why != "" {
